@@ -309,16 +309,40 @@ def _side(d):
     return None
 
 
+def _key_eq(a, b):
+    """equality of two (Sym)strings decided by ONE fork on the conjunction of the per-cell equalities (SymStr.__eq__ forks
+    cell by cell; a dict lookup only needs hit / miss)"""
+    ac = SymStr.lift(a).cells
+    bc = SymStr.lift(b).cells
+    if builtins.len(ac) != builtins.len(bc):
+        return False
+    parts = []
+    for p, q in zip(ac, bc):
+        ps, qs = isinstance(p, str), isinstance(q, str)
+        if ps and qs:
+            if p != q:
+                return False
+            continue
+        if not ps and not qs and p.vid == q.vid and p.fmap == q.fmap:
+            continue
+        if not (({p} if ps else p.chars()) & ({q} if qs else q.chars())):
+            return False
+        parts.append((z3.IntVal(ord(p)) if ps else p.term()) == (z3.IntVal(ord(q)) if qs else q.term()))
+    if not parts:
+        return True
+    return E.cur().branch(z3.And(parts) if builtins.len(parts) > 1 else parts[0])
+
+
 def sx_setitem(v, d, k):
     if E.active() and type(d) is dict and isinstance(k, SymStr) and not k.is_concrete():
         eng = E.cur()
         side = eng.symstore.setdefault(id(d), (d, []))[1]
         for j, (k2, _) in enumerate(side):
-            if k == k2:
+            if _key_eq(k, k2):
                 side[j] = (k2, v)
                 return
         for kc in list(d):
-            if isinstance(kc, str) and k == kc:
+            if isinstance(kc, str) and _key_eq(k, kc):
                 d[kc] = v
                 return
         side.insert(0, (k, v))
@@ -327,7 +351,7 @@ def sx_setitem(v, d, k):
         side = _side(d)
         if side:
             for j, (k2, _) in enumerate(side):
-                if k2 == k:
+                if _key_eq(k2, k):
                     side[j] = (k2, v)
                     return
     if isinstance(k, SymStr) and isinstance(d, dict):
@@ -339,7 +363,7 @@ def sx_getitem(a, i):
     side = _side(a)
     if side and isinstance(i, (str, SymStr)):
         for k2, v2 in side:
-            if k2 == i:
+            if _key_eq(k2, i):
                 return v2
     if isinstance(i, SymInt):
         if isinstance(a, dict):
@@ -349,7 +373,7 @@ def sx_getitem(a, i):
     elif isinstance(i, SymStr):
         if isinstance(a, dict):
             for k in a:
-                if isinstance(k, str) and i == k:
+                if isinstance(k, (str, SymStr)) and i == k:
                     return a[k]
             raise KeyError('symbolic key')
         raise TypeError('indices must be integers or slices, not str')
@@ -362,7 +386,7 @@ def sx_contains(c, x):
     side = _side(c)
     if side and isinstance(x, (str, SymStr)):
         for k2, _ in side:
-            if k2 == x:
+            if _key_eq(k2, x):
                 return True
     if isinstance(c, str) and isinstance(x, SymStr):
         return x in SymStr.lift(c)          # SymStr.__contains__ on the lifted container
@@ -370,7 +394,7 @@ def sx_contains(c, x):
         x._no()
     if is_sym(x) and isinstance(c, (dict, set, frozenset)):
         for k in c:
-            if isinstance(x, SymStr) and not isinstance(k, str):
+            if isinstance(x, SymStr) and not isinstance(k, (str, SymStr)):
                 continue
             if isinstance(x, (SymInt, SymFloat)) and not isinstance(k, (int, float)):
                 continue
